@@ -1001,6 +1001,31 @@ Fixpoint reply_left_unprocessed (evs obs : list sx) (delivered : list (bytes * Z
   | _, _ => None
   end.
 
+(* C15 / C04: once the ticker has applied a topology and a task round has run, no connection to a
+   node that the topology does not list is open any more (its pool was closed; whatever was queued or
+   in flight there has been completed with an error) *)
+Fixpoint removed_node_connection_open (evs obs : list sx) (listed : option (list bytes)) (tasks_since : bool) : option sx :=
+  match evs, obs with
+  | e :: evs', o :: obs' =>
+      let '(listed', since') :=
+        match e with
+        | SL [SN 9%Z; SL nodes; _] => (Some (concat (map (fun n => match n with SL (SB a :: _) => [a] | _ => [] end) nodes)), false)
+        | SL (SN 2%Z :: _) => (listed, true)
+        | _ => (listed, tasks_since)
+        end in
+      match listed', since', o with
+      | Some l, true, SL [_; SL ss] =>
+          match find (fun sv => match sv with
+                                | SL (SB addr :: SN _ :: SN op :: _) => negb (Z.eqb op 0) && negb (Cluster.memb addr l)
+                                | _ => false end) ss with
+          | Some (SL (SB addr :: SN k :: _)) => Some (viol "connection-to-removed-node-left-open" [SB addr; SN k])
+          | _ => removed_node_connection_open evs' obs' listed' since'
+          end
+      | _, _, _ => removed_node_connection_open evs' obs' listed' since'
+      end
+  | _, _ => None
+  end.
+
 Definition o_loop (a : sx) : sx :=
   match a with
   | SL [SL [SL (SN limit :: SB pw :: SN tmo :: _); _; SL ranges; SL evs]; SL obs] =>
@@ -1063,7 +1088,11 @@ Definition o_loop (a : sx) : sx :=
               | None =>
                   match (if Nat.eqb (length evs) (length obs) then reply_left_unprocessed evs obs [] else None) with
                   | Some v => v
-                  | None => ok
+                  | None =>
+                      match (if Nat.eqb (length evs) (length obs) then removed_node_connection_open evs obs None false else None) with
+                      | Some v => v
+                      | None => ok
+                      end
                   end
               end
           end
